@@ -56,7 +56,7 @@ _EVENT_MAKERS = {'from_data': conv.ev_from_data}
 
 
 # ---------------------------------------------------------------------------------------
-C01_CLAUSES = {'must-accept', 'must-reject', 'image', 'nondeterministic', 'foreign-exception'}
+C01_CLAUSES = {'must-accept', 'must-reject', 'image', 'nondeterministic', 'foreign-exception', 'method-variant-differs'}
 
 
 CORE_CFGS = {'quick': 'MC_Grammar_core_q.cfg', 'thorough': 'MC_Grammar_core_t.cfg'}
@@ -133,7 +133,7 @@ def c09(tier: str) -> int:
 
 
 C05_CLAUSES = {'reparse-shadowed-by-earlier-union-member', 'serialise-failed', 'not-interchange', 'serialised-form', 'reparse-failed', 'reparse-differs',
-               'reserialise-failed', 'reserialise-differs'}
+               'reserialise-failed', 'reserialise-differs', 'method-variant-differs'}
 
 
 @check('C05')
@@ -148,7 +148,8 @@ def c05(tier: str) -> int:
 
 
 C06_CLAUSES = {'fixpoint-shadowed-by-earlier-union-member', 'native-shadowed-by-earlier-union-member',
-               'twice-shadowed-by-earlier-union-member', 'fixpoint-refused', 'fixpoint-differs', 'native-refused', 'native-differs', 'twice-refused', 'twice-differs'}
+               'twice-shadowed-by-earlier-union-member', 'fixpoint-refused', 'fixpoint-differs', 'native-refused', 'native-differs', 'twice-refused', 'twice-differs',
+               'method-variant-differs'}
 
 
 @check('C06')
@@ -322,7 +323,7 @@ def c12(tier: str) -> int:
     ], extra=extra)
 
 
-C04_CLAUSES = {'foreign-exception', 'build-fails-documented', 'build-exception-class', 'build-must-fail'}
+C04_CLAUSES = {'foreign-exception', 'build-fails-documented', 'build-exception-class', 'build-must-fail', 'method-variant-differs'}
 
 
 def _ev_build_case(ident, c):
@@ -341,6 +342,8 @@ def c04(tier: str) -> int:
         (TAGGED_CFGS, C04_CLAUSES, conv.ev_from_data, {}),
         (COND_CFGS, C04_CLAUSES, conv.ev_from_data, {}),
         (SHIPPED_CFGS, C04_CLAUSES, conv.ev_from_data, {}),
+        (EXC_CFGS, C04_CLAUSES, conv.ev_from_json, {}),
+        (SHIPPED_CFGS, C04_CLAUSES, conv.ev_from_json, {}),
     ], extra=extra)
 
 
@@ -535,7 +538,7 @@ _EVENT_MAKERS.update({'construct': conv.ev_construct, 'created': conv.ev_created
 NAMES_CFGS = {'quick': 'MC_Grammar_names_q.cfg', 'thorough': 'MC_Grammar_names_t.cfg'}
 C15_CLAUSES = ({'must-accept', 'must-reject', 'image', 'foreign-exception', 'serialised-form', 'not-interchange', 'serialise-failed',
                 'reparse-failed', 'reparse-differs', 'children-keys', 'missing-fields', 'extra-fields', 'duplicate-node',
-                'length-bounds', 'node-kind', 'build-fails-documented'})
+                'length-bounds', 'node-kind', 'build-fails-documented', 'method-variant-differs'})
 
 
 def _accepted_only(T, v):
